@@ -202,6 +202,22 @@ func seedPayloads() []*V {
 	add(sliceOf(&V{K: "map", Keys: []string{"k1", "k2"}, Vals: []*V{str(1), str(2)}}))
 	add(sliceOf(ptr(pts(1)), ptr(pts(10))))
 	add(sliceOf(pts(1)))
+	// embedded structs: exported (payload by pointer and by value, as a field) and unexported
+	g1 := &gen{r: hc.NewRand(12)}
+	for i := 0; i < 4; i++ {
+		g1.canary = 0
+		em := g1.emb()
+		add(ptr(em))
+		if i%2 == 0 {
+			g1.canary = 0
+			add(ptr(st(fld("F1", nil, g1.emb()), fld("F2", sec, str(90)))))
+		}
+	}
+	// nil against empty: a nil map, a nil []string and a nil []byte next to their empty twins
+	add(ptr(st(fld("F1", nil, &V{K: "nilmap"}), fld("F2", sens, &V{K: "nilstrs"}), fld("F3", sens, &V{K: "strs"}), fld("F4", nil, imap()), fld("F5", sec, &V{K: "nilbytes"}), fld("F6", sec, str(1)))))
+	// equal and empty elements in []string / [][]byte fields and payloads
+	add(ptr(st(fld("F1", sens, &V{K: "strs", Cs: []int{1, 1, 0, 2, 1}}), fld("F2", sp("sensitive,hmac-sha256"), &V{K: "bytess", Cs: []int{3, 3, 0}}))))
+	add(&V{K: "strs", Cs: []int{1, 0, 1}})
 	// unexported fields (F10)
 	add(ptr(&V{K: "hand", Hand: "UnexpA", Fields: []Field{fld("hidden", nil, &V{K: "int", I: 7}), fld("hiddenS", nil, str(1)), fld("N", nil, &V{K: "int", I: 5}), fld("Sec", sec, str(2)), fld("Pub", pub, str(3))}}))
 	return out
@@ -228,6 +244,9 @@ func outsidePayloads() []*V {
 		{K: "islice", Elems: []*V{ptr(tm(1)), ptr(tm(10))}},
 		{K: "array", Elems: []*V{ptr(tm(1)), ptr(tm(10))}},
 		{K: "array", Elems: []*V{tm(1)}},
+		// maps whose keys are no strings: as the payload, as a field, holding strings and pointers to structs
+		{K: "imap", Vals: []*V{str(1), str(2)}},
+		ptr(st(fld("F1", nil, &V{K: "imap", Vals: []*V{str(1)}}), fld("F2", nil, &V{K: "imap", Vals: []*V{ptr(inner(10))}}), fld("F3", sec, str(20)))),
 		ptr(st(fld("F1", nil, &V{K: "array", Elems: []*V{inner(1)}}), fld("F2", nil, &V{K: "islice", Elems: []*V{ptr(inner(10)), tm(20)}}))),
 	}
 }
